@@ -320,6 +320,10 @@ def run_harness(args, stdin=None, profile="debug", timeout=3000):
     os.close(fd)
     env = dict(ENV)
     env["HARNESS_OUT"] = path
+    if profile == "traced":
+        # the same binary with a subscriber that enables every level of the library's log
+        env["HARNESS_TRACE"] = "1"
+        profile = "debug"
     try:
         p = subprocess.run([harness_bin(profile)] + args, input=stdin, stdout=subprocess.DEVNULL, stderr=subprocess.PIPE,
                            timeout=timeout, env=env)
@@ -542,6 +546,8 @@ def check(pid, tier, seed):
     # 1. implementation
     ok_h, herr = build_harness("debug")
     profiles = ["debug"]
+    if ok_h and cfg.get("traced_too"):
+        profiles.append("traced")
     if ok_h and cfg.get("release_too") and tier == "thorough":
         ok_r, _ = build_harness("release")
         if ok_r:
@@ -598,8 +604,8 @@ def check(pid, tier, seed):
                 for l, (m, v) in zip(lines, mv):
                     cmd, arg, impl = (l.split("\t") + ["", "", ""])[:3]
                     results.append({"cmd": cmd, "arg": arg, "impl": impl, "model": m, "verdict": v,
-                                    "stream": stream + ("" if profile == "debug" else "@release")})
-                streams_info[stream + ("" if profile == "debug" else "@release")] = len(lines)
+                                    "stream": stream + ("" if profile == "debug" else "@" + profile)})
+                streams_info[stream + ("" if profile == "debug" else "@" + profile)] = len(lines)
                 log("[%s] stream %s (%s): %d cases in %.1fs" % (pid, stream, profile, len(lines), time.time() - ts))
 
     # 4b. kernel-versus-extraction cross-check: the Coq kernel re-evaluates a sample of the cases the
